@@ -79,7 +79,7 @@ int main(int argc, char **argv) {
     if (!r.empty()) fprintf(stderr, "replay: %s | %s\n", r.c_str(), TRACE.c_str());
     return r.empty() ? 0 : 3;
   }
-  uint64_t n = a.thorough() ? 12000 : 1500;
+  uint64_t n = a.thorough() ? 60000 : 1500;
   std::string params = "seed=" + std::to_string(a.seed * 1000 + a.worker) + " max_success=" + std::to_string(n) + " max_size=100";
   setenv("RC_PARAMS", params.c_str(), 1);
   std::string lastwhy, lastcase;
